@@ -26,9 +26,15 @@
    and Scope/GrammarAllProofs*.v do the same for all six brace languages (`C01_grammar_brace`).
    Scope/PyGrammar.v and Scope/PyGrammarProofs*.v do it for Python (`C01_grammar_python`).
    Scope/GrammarParse.v is an executable recogniser of the brace grammar, proved sound (`C01_recognised_programs`).
-   MISSING: constructs the formal grammars leave out (brace groups inside parameter lists, multi-line Python
-   headers and backslash continuations: covered in the hypothesis form and by the generator only), and the
-   lexers themselves (oracles under the C16 contract).
+   The brace grammar covers statements, control statements and class-like declarations, bare blocks, `keyword :`
+   labels, brace initialisers (with calls inside), callback statements (JavaScript / TypeScript), anonymous classes and
+   object initialisers after `new` (Java / C#), TypeScript return types with parenthesis groups, flat brace groups in
+   JavaScript / TypeScript parameter lists (a per-depth state machine says where one may start) and `async` among the
+   words before a header; the Python grammar covers multi-line headers.
+   MISSING: constructs the formal grammars still leave out (nested or non-flat brace groups inside parameter lists,
+   callbacks and `new` expressions in other positions than a statement of their own, Python backslash continuations:
+   covered in the hypothesis form and by the generator only), and the lexers themselves (oracles under the C16
+   contract).
    Proofs: Scope/SpecProofs{Dyck,Pairing,Fold,Count,}.v, Scope/HeaderProofs{Dfa,Select,}.v. *)
 From Verif Require Import Base Token Lex LexProofs Headers Blocks Pairing Fold ScanFile Spec
   SpecProofsDyck SpecProofsPairing SpecProofsFold SpecProofsCount SpecProofs
